@@ -1,6 +1,7 @@
 """C13 — client-level check (monitors on the real client through H-client; Lean obligations from Props/C13.lean)."""
 from vlib import *
 import client_check as CC
+import stream_check as SC
 
 
 def run(ctx):
@@ -16,6 +17,8 @@ def run(ctx):
                        "reconnects with changing Receive Maximum / Server Keep Alive / Session Present, virtual time, then a fault-free suffix and cancel() or async_disconnect; "
                        "the C13 monitor runs on every transcript; non-trivial = distinct scenario with >= 2 (re)connections and > 3 operations")
     found = CC.report(ctx, "C13", fails) or CC.report(ctx, "C13", fails_s, profile="session")
+    # stream level (real connect_op, with and without an authenticator): the Session Present flag stored for the session bookkeeping is the CONNACK's
+    found = SC.phase(ctx, "C13", 300 if ctx.tier == "quick" else 6000, 150) or found
     report_broken_ties(ctx, found)
     if ctx.tier == "thorough" and not ctx.ties_broken:
         for m, msg in leanchecker(ctx.lean.get("modules", [])):
